@@ -33,7 +33,7 @@ CHECKS = {
    note=LANE_NOTE + " Pool growth when all workers are blocked is not modelled yet (observed only through the hang oracle).", design_ref="7/C01"),
  "C02": dict(technique=LANE_TECH,
    text="Same machine with W = 1: TLC checks that no two items of a serial lane overlap and that submission order (return-before-call, and same-thread program order) is execution order for async, sync, barrier and async_and_wait paths; the model of the repaired defect F1 (fast path without the dq_items_tail check) is kept as a mutant that TLC must refute, and the F1 schedule is steered on the real library on every run. Real executions: overlap / order / plain-counter oracles on the recorded total order plus word-level validation.",
-   note=LANE_NOTE + " The thread-bound main queue is not modelled.", design_ref="7/C02"),
+   note=LANE_NOTE + " The thread-bound main queue is modelled (MainQueue.tla: snapshot drain, eventfd wakeup) and bound at API level only (drv_mainq: runloop emulation, then dispatch_main conversion).", design_ref="7/C02"),
  "C04": dict(technique=LANE_TECH,
    text="Lane.tla with W = 2: width accounting exactly as the code (pending barrier reservation, full-width upgrade, last-reader-takes-lock, drain_non_barriers); TLC checks barrier exclusion, ordering against items whose submission completed before / started after the barrier, width conservation, and refutes 'reader ignores PENDING_BARRIER'. Real queues are narrowed to width 2/3 so the same arithmetic is exercised; every recorded dq_state transition is validated and exclusion/order are evaluated on the recorded order; F1 through dispatch_barrier_sync is steered on the real library.",
    note=LANE_NOTE + " dispatch_apply on the queue is decided under C10.", design_ref="7/C04"),
